@@ -441,7 +441,10 @@ pub fn gen_mindustry(c: &mut Chooser) -> MindustryState {
             long_string(100),
         ])
     };
-    MindustryState {
+    // total datagram size: as generated, or padded (through the description, then the host name) to exactly 499 / 500
+    // bytes - 500 is the largest datagram the format allows and the size of the client's receive buffer
+    let pad_to = pick(c, &[0usize, 500, 499]);
+    let mut st = MindustryState {
         host: s(c, "Mindustry host"),
         map: s(c, "Ancient Caldera"),
         players: pick(c, &i32_alts(4)),
@@ -457,7 +460,23 @@ pub fn gen_mindustry(c: &mut Chooser) -> MindustryState {
             Some(String::new()),
             Some("Zürich".to_string()),
         ]),
+    };
+    if pad_to > 0 {
+        for _ in 0 .. 600 {
+            let len = st.datagram().len();
+            if len >= pad_to {
+                break;
+            }
+            if st.description.len() < 255 {
+                st.description.push('d');
+            } else if st.host.len() < 255 {
+                st.host.push('h');
+            } else {
+                break;
+            }
+        }
     }
+    st
 }
 
 pub const MINDUSTRY_REQUEST: &[u8] = &[0xFE, 0x01];
